@@ -18,6 +18,7 @@ def step : List String → String
     | _, _, _, _ => "bad-op"
   | "vgrant" :: _ => "skip"
   | "vtime" :: _ => "skip"
+  | "vclaw" :: _ => "skip"
   | "vmon" :: _ => "skip"
   | _ => "bad-op"
 
